@@ -222,6 +222,14 @@ def fn_rename(spec, rec):
             raise Mismatch("rename-target-in-glue-does-not-resolve", {"key": key, "target": final, "error": repr(e)})
         if obj is None:
             raise Mismatch("rename-target-in-glue-does-not-resolve", {"key": key, "target": final})
+        # ... and the library's own resolver (what the loaders call with a record's _type) must get there from the old name
+        from glue.core.state import lookup_class_with_patches
+        try:
+            via = lookup_class_with_patches(key)
+        except Exception as e:  # noqa
+            raise Mismatch("old-name-does-not-resolve-through-the-rename-table/%d-hops" % (len(seen) - 1), {"key": key, "target": final, "error": repr(e)[:200]})
+        if via is not obj:
+            raise Mismatch("old-name-resolves-to-another-object/%d-hops" % (len(seen) - 1), {"key": key, "target": final, "got": repr(via)[:100]})
     # the key must not name a concrete class that this package still defines and writes: "writes" is measured - the
     # _type values found in a session saved by this package with data, subsets, links and all four built-in viewers
     try:
